@@ -411,7 +411,10 @@ class ShortTimeFourierTransformFrameComputer(LinearFilterBankFrameComputer):
             buffered_frame[1] = 0
             half_spect = buffered_frame.view(np.complex128)
         else:
-            half_spect = np.fft.rfft(frame * self._window, n=self._dft_size)
+            # numpy >= 2 would transform an extended-precision frame in extended precision
+            half_spect = np.fft.rfft(
+                (frame * self._window).astype(np.float64, copy=False), n=self._dft_size
+            )
         assert half_spect.dtype == np.complex128
         half_len = len(half_spect)
         for filt_idx in range(len(self._filt_start_idxs)):
